@@ -273,6 +273,8 @@ TABLE = {
         ("pull_str-raw-early-return", DT, "    if na.all(): return out.as_string()", "    if na.all(): return out", V, "MPT-5"),
     ],
     "C20": [
+        ("cells-cut-by-line-count-only", VE, "                    (\"\".join(lines) != strings[i] and truncate_width < inf)):\n                    strings[i] = util.utruncate(lines[0], truncate_width-1) + \"…\"\n            return self.__class__.fast(pad(strings), str)\n        if self.is_string():",
+         "                    (len(lines) > 1 and truncate_width < inf)):\n                    strings[i] = util.utruncate(lines[0], truncate_width-1) + \"…\"\n            return self.__class__.fast(pad(strings), str)\n        if self.is_string():", V, "SIB-pad"),
         ("geojson-render-through-modify", GE, "            self = self.copy()\n            self[\"geometry\"] = Vector.fast(geometry, object)", "            self = self.modify(geometry=Vector.fast(geometry, object))", V, "GRD-empty"),
         ("dtype-label-memo-by-num", VE, "            return \"string\"\n        return str(self.dtype)", "            return \"string\"\n        if self.dtype.num not in TYPE_CONVERSIONS_LABELS:\n            TYPE_CONVERSIONS_LABELS[self.dtype.num] = str(self.dtype)\n        return TYPE_CONVERSIONS_LABELS[self.dtype.num]\n\nTYPE_CONVERSIONS_LABELS = {}\n\nclass _Unused:\n    pass\n\n    def _unused(self):\n        return None", V, "MEMO-proj"),
         ("geojson-no-truncate_width", GE, "    def to_string(self, *, max_rows=None, max_width=None, truncate_width=None):", "    def to_string(self, *, max_rows=None, max_width=None):", V, "FWD-override"),
